@@ -1,6 +1,6 @@
 From RsdnsModel Require Import Base GenReader Cursor Names Labels Header Tracker RData Reader Script Iter.
 From RsdnsModel.Spec Require Import WireName LinearPass.
-From RsdnsModel.Proofs Require Import CursorSafe LabelsSound Views RandAccess Flavours IterAgree NameRefEq ReaderRefine QuestionsIter MessageRT EndToEnd.
+From RsdnsModel.Proofs Require Import CursorSafe LabelsSound Views RandAccess Flavours IterAgree NameRefEq ReaderRefine QuestionsIter MessageRT EndToEnd FieldLeaves.
 From RsdnsModel.Properties Require Import C08.
 Open Scope N_scope.
 Check (C08_name_types_agree : forall msg c, read_name msg Heap c = read_name msg Inline c).
@@ -66,4 +66,7 @@ Check (C08_iterator_end_to_end : forall msg qs rs nq an ns ar e1 e2 h,
   iter_records msg h e1 = Ok (sem_iter nq an ns ar 0 rs, None)).
 Check (C08_iterator_example : iter_records example_chain_msg (mkHeader 4660 33152 1 2 0 0) 19 =
   Ok ([mkRR 0 [x61; x2e] 1 5 60 (RD_Name 5 [x62; x2e]); mkRR 0 [x62; x2e] 1 1 30 (RD_A 84281096)], None)).
-Print Assumptions C08_name_types_agree. Print Assumptions C08_read_implies_skip. Print Assumptions C08_random_access_view. Print Assumptions C08_header_flavours_agree. Print Assumptions C08_iterator_item_is_reader_item. Print Assumptions C08_iterator_skip_is_reader_skip. Print Assumptions C08_nameref_eq_is_decoded_eq. Print Assumptions C08_label_iteration_is_expansion. Print Assumptions C08_questions_iterator. Print Assumptions C08_iterator_new. Print Assumptions C08_records_iterator. Print Assumptions C08_records_iterator_general. Print Assumptions C08_iterator_end_to_end. Print Assumptions C08_iterator_example.
+Check (C08_fields_are_the_words_read : forall w,
+  (marker_field_type w = w /\ marker_field_class w = w /\ marker_field_ttl w = w /\ marker_field_rdlen w = w) /\
+  (iter_field_type w = w /\ iter_field_class w = w /\ iter_field_ttl w = w /\ iter_field_rdlen w = w)).
+Print Assumptions C08_name_types_agree. Print Assumptions C08_read_implies_skip. Print Assumptions C08_random_access_view. Print Assumptions C08_header_flavours_agree. Print Assumptions C08_iterator_item_is_reader_item. Print Assumptions C08_iterator_skip_is_reader_skip. Print Assumptions C08_nameref_eq_is_decoded_eq. Print Assumptions C08_label_iteration_is_expansion. Print Assumptions C08_questions_iterator. Print Assumptions C08_iterator_new. Print Assumptions C08_records_iterator. Print Assumptions C08_records_iterator_general. Print Assumptions C08_iterator_end_to_end. Print Assumptions C08_iterator_example. Print Assumptions C08_fields_are_the_words_read.
